@@ -248,3 +248,56 @@ def check_id_allocation(ctx: Ctx, oid: str):
     for n in ast.walk(ctx.repo.module("cp_encoder").tree):
         if isinstance(n, ast.Call) and isinstance(n.func, ast.Attribute) and n.func.attr == "_new_bool_var" and ast.unparse(n.func.value) != "self":
             ctx.ob(oid, "R28 WRITER-DISCIPLINE", civ, "the encoder allocates literals only from its own counter", False, f"`{ast.unparse(n)}`", node=n)
+
+
+def check_cumulative_horizon(ctx: Ctx, oid: str):
+    """The capacity clauses are emitted per time point: the scanned range must reach the last instant at which a task
+    can start (an overload that first shows there is otherwise accepted).  Accepted upper ends: the latest possible
+    end `max(s.ub + d ...)`, or `max(s.ub ...) + 1`; lower end: the earliest start."""
+    f = ctx.func("cp_encoder", "SATEncoder._encode_cumulative")
+    defs = {ast.unparse(d.targets[0]): ast.unparse(d.value) for d in own_nodes(f.node) if isinstance(d, ast.Assign) and len(d.targets) == 1}
+    loops = [n for n in own_nodes(f.node) if isinstance(n, ast.For) and isinstance(n.iter, ast.Call) and ast.unparse(n.iter.func) == "range" and len(n.iter.args) == 2 and any(isinstance(x, ast.Call) and ast.unparse(x.func).endswith("_encode_capacity_constraint") for x in ast.walk(n))]
+    ctx.require(len(loops) == 1, "time-point loop of _encode_cumulative not found")
+    lo, hi = loops[0].iter.args
+
+    def res(e):
+        t = ast.unparse(e)
+        return defs.get(t, t) if isinstance(e, ast.Name) else t
+
+    lo_t, hi_t = res(lo), res(hi)
+    ok_lo = lo_t in ("min((s.lb for s in starts))",)
+    ok_hi = hi_t in ("max((s.ub + d for s, d in zip(starts, durations)))",)
+    if not ok_hi and isinstance(hi, ast.BinOp) and isinstance(hi.op, ast.Add) and ast.unparse(hi.right) == "1":
+        ok_hi = res(hi.left) in ("max((s.ub for s in starts))",)
+    ctx.ob(oid, "R20 ROUND-COUNT", f, "capacity clauses are emitted for every instant from the earliest start up to and including the latest possible start", ok_lo and ok_hi, f"range({lo_t}, {hi_t}): an instant left out gets no capacity clause, so an overload that first appears there is accepted", node=loops[0])
+
+
+def check_solve_is_read_only(ctx: Ctx, oid: str):
+    """Solving does not write the model: nothing reachable from Model.solve through self-calls stores into a field of
+    self.  A plan or cache kept on the model goes stale when constraints are added between two solves."""
+    m = ctx.repo.module("cp")
+    start = ctx.func("cp", "Model.solve")
+    seen, work = {}, [start]
+    while work:
+        f = work.pop()
+        if f.qualname in seen:
+            continue
+        seen[f.qualname] = f
+        for n in ast.walk(f.node):
+            if isinstance(n, ast.Call) and isinstance(n.func, ast.Attribute) and isinstance(n.func.value, ast.Name) and n.func.value.id == "self":
+                g = m.funcs.get(f"Model.{n.func.attr}")
+                if g is not None:
+                    work.append(g)
+    ctx.floor("methods reachable from Model.solve", len(seen), 5)
+    writes = []
+    for q in sorted(seen):
+        f = seen[q]
+        for n in ast.walk(f.node):
+            if isinstance(n, (ast.Assign, ast.AugAssign, ast.AnnAssign)):
+                for t in n.targets if isinstance(n, ast.Assign) else [n.target]:
+                    for e in t.elts if isinstance(t, ast.Tuple) else [t]:
+                        if ast.unparse(e).startswith("self."):
+                            writes.append((f, n))
+            elif isinstance(n, ast.Call) and isinstance(n.func, ast.Attribute) and n.func.attr in ("append", "add", "update", "pop", "setdefault", "clear", "extend", "insert", "remove") and ast.unparse(n.func.value).startswith("self."):
+                writes.append((f, n))
+    ctx.ob(oid, "R27 WRITE-OWNERSHIP", writes[0][0] if writes else start, "nothing on the solve path writes a field of the model", not writes, f"`{ast.unparse(writes[0][1])[:60]}` in {writes[0][0].qualname}: state kept on the model by one solve is reused by the next although variables or constraints may have been added in between" if writes else "", node=writes[0][1] if writes else start.node)
